@@ -17,7 +17,10 @@ RULE = ("seeded documents: a root branch with a generated tree (depth 1-4, fan-o
         "unknown keys; 40% of the documents carry one mutation out of 18 classes (leaf without datatype, branch "
         "without children, min/max/allowed/default of wrong JSON kind or out of range incl. f32 overflow, invalid or "
         "missing type/description/datatype/changetype, allowed not an array, and harmless ones: leaf with children, "
-        "branch with datatype, default on a sensor, empty branch); non-trivial = loaded document with at least two "
+        "branch with datatype, default on a sensor, empty branch); plus a grid of one-leaf documents: every data "
+        "type x {min, max, allowed, default} x every class of unfitting value (wrong JSON kind, one past either "
+        "end of the range, the next wider type's maximum, fraction, array/scalar confusion, f32 overflow) and x the "
+        "values at the edge of the type; non-trivial = loaded document with at least two "
         "entries; distinct = distinct documents")
 TRUSTED = ["extraction: ExtrOcamlBasic only; driver ocaml/model_run.ml",
            "correspondence harness: harness/src/fam_vss.rs (vss::parse_vss_from_str, then the add_entry / update_entries loop of main.rs)",
@@ -35,6 +38,9 @@ def generate(rng, tier, n=None):
         root, fault = VS.gen_case(rng)
         FAULT["v%d" % i] = fault
         cases.append(("v%d" % i, [VS.doc_line(root)]))
+    for j, (root, what) in enumerate(VS.grid_cases(rng)):
+        FAULT["g%d" % j] = what
+        cases.append(("g%d" % j, [VS.doc_line(root)]))
     return cases
 
 
